@@ -8,7 +8,7 @@ Verdict rules (DESIGN 2.3):
   exit 2  infrastructure problem (build failure, TLC crash/timeout, spec counterexample, dead driver,
           self-test not rejected, flaky case) -- never a violation
 """
-import json, os, re, shutil, subprocess, sys, tempfile, time, concurrent.futures, hashlib
+import copy, json, os, re, shutil, subprocess, sys, tempfile, time, concurrent.futures, hashlib
 
 ROOT = os.path.dirname(os.path.dirname(os.path.abspath(__file__)))
 SPEC = os.path.join(ROOT, "spec")
@@ -404,7 +404,7 @@ def self_test(ctx, module, cfg, trace_file, mutate, env=None, ncases=40, name="c
     idx = [i for i, l in enumerate(lines) if '"ev":"Case"' in l]
     end = idx[ncases] if len(idx) > ncases else len(lines)
     recs = [json.loads(l) for l in lines[:end]]
-    mut = mutate([dict(r) for r in recs])
+    mut = mutate(copy.deepcopy(recs))
     if mut == recs:
         raise Infra("self-test mutation '%s' changed nothing" % name)
     p = os.path.join(ctx.scratch, "selftest_%d.ndjson" % len(ctx.cov["self_test"]))
